@@ -225,6 +225,7 @@ func materialisedFiles() []struct {
 		trak := mTrak(1, 1000, 1, true, nil, append(stbl(7), mStco([]int64{int64(len(ftyp) + hdr)}))...)
 		out = append(out, nd{fmt.Sprintf("matter:mdat-first(large=%v)", large), cat(ftyp, mMdat(mkPayload(7), large), mkBox("moov", mMvhd(1000, 1, 2), trak), mkBox("free", zeros(3)))})
 	}
+	out = append(out, encryptedSegments()...)
 	return out
 }
 
@@ -364,4 +365,19 @@ func fnvDigest(b []byte) int {
 		h *= 16777619
 	}
 	return int(h & 0x3fffffff)
+}
+
+func init() {
+	register("pool-list", func(args []string) error {
+		pool, err := buildPool(argValue(args, "-corpus", "/repo/mp4/testdata"), true)
+		if err != nil {
+			return err
+		}
+		for _, p := range pool {
+			if p.Kind != "box" || argValue(args, "-all", "") != "" {
+				emit(J{"name": p.Name, "kind": p.Kind, "type": p.Type})
+			}
+		}
+		return nil
+	})
 }
